@@ -47,8 +47,17 @@ func FMulInt(a *big.Int, k int64) *big.Int {
 	return FRed(new(big.Int).Mul(a, big.NewInt(k)))
 }
 
-// FInv returns a^(p-2) mod p (Fermat). FInv(0) = 0; callers decide whether 0 is in their domain.
-func FInv(a *big.Int) *big.Int { return new(big.Int).Exp(FRed(a), pMinus2, P) }
+// FInv returns the inverse of a mod p (extended Euclid, math/big). FInv(0) = 0; callers decide
+// whether 0 is in their domain. FInvFermat is the a^(p-2) form; calibration cross-checks the two.
+func FInv(a *big.Int) *big.Int {
+	r := FRed(a)
+	if r.Sign() == 0 {
+		return r
+	}
+	return r.ModInverse(r, P)
+}
+
+func FInvFermat(a *big.Int) *big.Int { return new(big.Int).Exp(FRed(a), pMinus2, P) }
 
 // FIsSquare: Euler criterion. 0 counts as a square.
 func FIsSquare(a *big.Int) bool {
